@@ -67,8 +67,8 @@ MC_JoinTblPool_S == {Tbl("t2", "y")}
 MC_JoinTblPool   == {Tbl("t2", ""), Tbl("t2", "y")}
 
 \* ---------------------------------------------------------------- statement sets
-\* the cover set of C09 and of the trailing-token scenarios: AllStatements under the S pools is
-\* still a few thousand statements; the machine with junk is run on one statement of every shape
+\* the cover set of C09 and of the trailing-token scenarios: the machine with junk is run on a few
+\* statements that together use every production
 CoverSelects ==
   {Sel(<<Item(Col("", "a"), ""), Item(Col("t1", "b"), "x")>>, <<Tbl("t1", "x")>>,
        <<JoinOf("INNER", Tbl("t2", "y"), L4)>>, <<OrN(AndN(L1, L2), L3)>>, <<>>,
@@ -102,6 +102,8 @@ MC_Vocab2     == {KW(w) : w \in {"AND", "OR", "SELECT", "FROM", "WHERE", "LIMIT"
                  \cup {Raw(x) : x \in {"99999999999999999999", "0x10", "'", "'abc", "`", "1.5", "/*", "--"}}
                  \cup {Lex(c) : c \in {"dquote", "nul", "bad_utf8"}}
 MC_None       == {}
+MC_AllSlices  == SliceNames \ {"given"}
+MC_Given      == {"given"}
 
 \* ---------------------------------------------------------------- generators
 CONSTANTS EmitMode    \* "full" : ast + tokens with marks ; "toks" : tokens only
@@ -127,7 +129,7 @@ View == <<form, rest, toks, junk, tail>>
 
 \* sanity of the bounded universe itself (checked in the small configuration)
 UniverseOK ==
-  /\ \A s \in AllStatements : s.k \in StmtKinds
-  /\ \A s \in AllStatements : \A c \in StmtConds(s) : c.k \in {"cmp", "and", "or"} => Expressible(c)
-  /\ \A k \in StmtKinds : \E s \in AllStatements : s.k = k
+  /\ Slices \subseteq SliceNames
+  /\ \A s \in Universe : s.k \in StmtKinds
+  /\ \A s \in Universe : \A c \in StmtConds(s) : c.k \in {"cmp", "and", "or"} => Expressible(c)
 =============================================================================
